@@ -48,7 +48,6 @@ PENDING = {
  "C29": "check not built yet (planned: relayer pager kernel, DESIGN §5 C29)",
  "C30": "check not built yet (planned: select_new_da_height, DESIGN §5 C30)",
  "C34": "check not built yet (planned: gas price updater step, DESIGN §5 C34)",
- "C35": "check not built yet (planned: worst-case estimate, DESIGN §5 C35)",
  "C36": "check not built yet (planned: balances indexation step, DESIGN §5 C36)",
  "C37": "check not built yet (planned: select_coins_to_spend, DESIGN §5 C37)",
  "C38": "check not built yet (planned: query_pagination, DESIGN §5 C38)",
